@@ -145,6 +145,107 @@ class AGen:
         return f'<generator {self.info.qname}>'
 
 
+class AStruct:
+    """struct.Struct(fmt): a precompiled layout; its methods are the struct module functions with the format filled in."""
+    def __init__(self, fmt):
+        self.fmt = fmt
+
+    def __repr__(self):
+        return f'<Struct {self.fmt!r}>'
+
+    def absint_hasattr(self, name):
+        return name in ('size', 'format', 'pack', 'unpack', 'unpack_from', 'pack_into', 'iter_unpack')
+
+    def absint_getattr(self, interp, name, node):
+        import struct as _struct
+        if name == 'size':
+            return _struct.calcsize(self.fmt)
+        if name == 'format':
+            return self.fmt
+        if name in ('pack', 'unpack', 'unpack_from'):
+            return ('structmethod', self, name)
+        raise AbsRaise('AttributeError', node, implicit=True)
+
+    def call(self, interp, name, args, kwargs, node):
+        import struct as _struct
+        if name == 'pack':
+            return interp.apply(ExtRef('struct.pack'), [self.fmt] + list(args), {}, node)
+        if name == 'unpack':
+            return interp.apply(ExtRef('struct.unpack'), [self.fmt] + list(args), {}, node)
+        if name == 'unpack_from':
+            data = args[0]
+            offset = kwargs.get('offset', args[1] if len(args) > 1 else 0)
+            size = _struct.calcsize(self.fmt)
+            if isinstance(data, (bytes, bytearray)) and isinstance(offset, int):
+                try:
+                    return _struct.unpack_from(self.fmt, data, offset)
+                except _struct.error:
+                    raise AbsRaise('struct.error', node)
+            if isinstance(data, AList) and isinstance(offset, int):
+                # byte offsets into a list of wire items: whole items only
+                pos = 0
+                out = []
+                got = 0
+                for it in data.items:
+                    sz = it.size_var() if hasattr(it, 'size_var') else (1 if not isinstance(it, SeqVar) else None)
+                    if not isinstance(sz, int):
+                        return Opaque('unpack_from over a symbolic run')
+                    if pos < offset:
+                        pos += sz
+                        if pos > offset:
+                            return Opaque('unpack_from offset cuts through a field')
+                        continue
+                    if got >= size:
+                        break
+                    out.append(it)
+                    got += sz
+                if got < size:
+                    raise AbsRaise('struct.error', node)
+                if got > size:
+                    return Opaque('unpack_from size cuts through a field')
+                return interp.apply(ExtRef('struct.unpack'), [self.fmt, AList(out, 'bytes')], {}, node)
+            return Opaque('unpack_from')
+        return Opaque(f'Struct.{name}')
+
+
+class ALazy:
+    """A lazy iterator object built by map / filter / filterfalse / iter / enumerate over something that is itself lazy
+    (or not): consumed by driving the source and transforming each item on the way."""
+    def __init__(self, kind, fn, src):
+        self.kind = kind
+        self.fn = fn
+        self.src = src
+        self.done = False
+
+    def __repr__(self):
+        return f'<{self.kind} over {self.src!r}>'
+
+    def drive(self, interp, node, cb):
+        if self.done:
+            return
+        self.done = True
+        counter = [0]
+
+        def step(v):
+            if self.kind == 'map':
+                cb(interp.apply(self.fn, [v], {}, node))
+            elif self.kind in ('filter', 'filterfalse'):
+                keep = interp.truth(interp.apply(self.fn, [v], {}, node) if self.fn is not None else v, node)
+                if keep == (self.kind == 'filter'):
+                    cb(v)
+            elif self.kind == 'enumerate':
+                cb(AList([counter[0] + (self.fn or 0), v], 'tuple'))
+                counter[0] += 1
+            else:
+                cb(v)
+        interp.for_each(self.src, node, step)
+
+
+class _NextFound(Exception):
+    def __init__(self, value):
+        self.value = value
+
+
 class _GenEscape(Exception):
     """An exception / return / break raised by the BODY of a for loop while the generator it iterates is being run
     with the body as a callback: it must pass through the generator's frames untouched."""
@@ -293,8 +394,8 @@ class AbsInt:
         return choice
 
     # ------------------------------------------------------------------ calls
-    def call_function(self, info, args, kwargs, node=None):
-        if info.qname in self.summaries:
+    def call_function(self, info, args, kwargs, node=None, closure=None):
+        if closure is None and info.qname in self.summaries:
             return self.summaries[info.qname](self, args, kwargs, node)
         for d in info.node.decorator_list:
             dn = unparse(d.func) if isinstance(d, ast.Call) else unparse(d)
@@ -305,6 +406,8 @@ class AbsInt:
         fn = info.node
         a = fn.args
         env = {}
+        if closure is not None:
+            env.update({k: v for k, v in closure.items() if not k.startswith('__')})
         params = [x.arg for x in a.posonlyargs + a.args]
         args = list(args)
         if info.cls is not None and _is_classmethod(fn):
@@ -429,6 +532,8 @@ class AbsInt:
         elif isinstance(st, ast.For):
             it = self.ev(st.iter, env, m)
             gen = self.as_generator(it, st)
+            if gen is None and isinstance(it, ALazy):
+                gen = it
             if gen is not None:
                 state = {'broke': False}
 
@@ -444,7 +549,10 @@ class AbsInt:
                     except (_Ret, AbsRaise) as ex:
                         raise _GenEscape(ex)
                 try:
-                    self.run_generator(gen, body)
+                    if isinstance(gen, ALazy):
+                        gen.drive(self, st, body)
+                    else:
+                        self.run_generator(gen, body)
                 except _GenEscape as ge:
                     if ge.inner is not None:
                         raise ge.inner
@@ -480,26 +588,37 @@ class AbsInt:
         elif isinstance(st, ast.Continue):
             raise _Cont()
         elif isinstance(st, ast.Try):
+            # the finally clause runs on every way out: normal completion, return / break / continue, an exception that is
+            # not handled, an exception raised by a handler (internal analysis errors pass through untouched)
             try:
-                self.ex_block(st.body, env, m)
-            except AbsRaise as e:
-                for h in st.handlers:
-                    if any(exc_is(e.exc, hn, self.extra_exc_parents) for hn in handler_names(h)):
-                        if h.name:
-                            env[h.name] = Opaque('exception')
-                        try:
+                try:
+                    self.ex_block(st.body, env, m)
+                except AbsRaise as e:
+                    for h in st.handlers:
+                        if any(exc_is(e.exc, hn, self.extra_exc_parents) for hn in handler_names(h)):
+                            if h.name:
+                                env[h.name] = Opaque('exception')
                             self.ex_block(h.body, env, m)
-                        finally:
-                            pass
-                        break
+                            break
+                    else:
+                        raise
                 else:
-                    self.ex_block(st.finalbody, env, m)
-                    raise
-            else:
-                self.ex_block(st.orelse, env, m)
+                    self.ex_block(st.orelse, env, m)
+            except (AbsRaise, _Ret, _Brk, _Cont, _GenEscape, _NextFound):
+                self.ex_block(st.finalbody, env, m)
+                raise
             self.ex_block(st.finalbody, env, m)
         elif isinstance(st, (ast.Global, ast.Nonlocal, ast.Import, ast.ImportFrom)):
             pass
+        elif isinstance(st, (ast.FunctionDef, ast.AsyncFunctionDef)):
+            # a nested function: a closure over the enclosing frame (read access to its variables, current values at call time)
+            from .model import FuncInfo as _FI
+            info = _FI(st.name, m, st)
+            for d in st.decorator_list:
+                dn = unparse(d.func) if isinstance(d, ast.Call) else unparse(d)
+                if dn.split('.')[-1] not in _SAFE_DECORATORS:
+                    raise Unsupported(f'decorator @{dn} on nested function {st.name} is not modelled')
+            env[st.name] = ('closure', info, env)
         elif isinstance(st, ast.Delete):
             for t in st.targets:
                 if isinstance(t, ast.Name):
@@ -557,6 +676,15 @@ class AbsInt:
             return
         item = st.items[i]
         cm = None
+        if isinstance(item.context_expr, ast.Call) and unparse(item.context_expr.func) in ('contextlib.suppress', 'suppress') \
+                and isinstance(self.ev(item.context_expr.func, env, m), ExtRef):
+            names = [unparse(a) for a in item.context_expr.args]
+            try:
+                self.ex_with(st, i + 1, env, m)
+            except AbsRaise as e:
+                if not any(exc_is(e.exc, hn, self.extra_exc_parents) for hn in names):
+                    raise
+            return
         if isinstance(item.context_expr, ast.Call):
             try:
                 fval = self.ev(item.context_expr.func, env, m)
@@ -662,6 +790,11 @@ class AbsInt:
         if meth is None:
             return Opaque(type(e).__name__)
         return meth(e, env, m)
+
+    def _v_NamedExpr(self, e, env, m):
+        v = self.ev(e.value, env, m)
+        self.assign(e.target, v, env, m)
+        return v
 
     def _v_Constant(self, e, env, m):
         return e.value
@@ -1143,6 +1276,12 @@ class AbsInt:
             other = b if a is None else a
             if isinstance(other, (AV, LenV, AList, ADict, AObj)) or _is_concrete(other):
                 return isinstance(op, ast.NotEq) if other is not None else isinstance(op, ast.Eq)
+        if isinstance(op, (ast.Is, ast.IsNot)) and (type(a) is object or type(b) is object):
+            # a sentinel made by object(): identity is all there is to it
+            other = b if type(a) is object else a
+            if isinstance(other, Opaque):
+                return None
+            return (a is b) if isinstance(op, ast.Is) else (a is not b)
         if isinstance(op, (ast.Is, ast.IsNot)):
             if a is None or b is None:
                 other = b if a is None else a
@@ -1237,9 +1376,9 @@ class AbsInt:
                 return bool(v)
             except Exception:
                 return self.decide(node, 'truth')
-        if isinstance(v, (FuncRef, ClassRef, ExtRef, AGen)):
+        if isinstance(v, (FuncRef, ClassRef, ExtRef, AGen, ALazy)):
             return True
-        if isinstance(v, tuple) and v and v[0] == 'bound':
+        if isinstance(v, tuple) and v and v[0] in ('bound', 'closure', 'lambda', 'attrgetter', 'itemgetter'):
             return True
         if isinstance(v, AList):
             if v.kind == 'deque':
@@ -1282,6 +1421,17 @@ class AbsInt:
             lo = self.ev(e.slice.lower, env, m) if e.slice.lower else None
             hi = self.ev(e.slice.upper, env, m) if e.slice.upper else None
             if e.slice.step is not None:
+                step = self.ev(e.slice.step, env, m)
+                if _is_concrete(base) and all(x is None or isinstance(x, int) for x in (lo, hi, step)):
+                    try:
+                        return base[lo:hi:step]
+                    except Exception:
+                        raise AbsRaise('TypeError', e, implicit=True)
+                al = _as_alist(base)
+                if al is not None and step == -1 and lo is None and hi is None:
+                    return AList(list(reversed(al.items)), al.kind)     # a run of symbolic items keeps its content, reversed
+                if al is not None and not al.has_var() and all(x is None or isinstance(x, int) for x in (lo, hi, step)):
+                    return AList(al.items[lo:hi:step], al.kind)
                 return Opaque('slice step')
             return self.slice(base, lo, hi, e)
         idx = self.ev(e.slice, env, m)
@@ -1378,6 +1528,13 @@ class AbsInt:
             except Exception:
                 return Opaque('slice')
         al = _as_alist(base)
+        if al is not None and isinstance(hi, LenV):
+            # an end index computed from len(): len(x) -> no end, len(x) - k -> -k
+            total = self.length_of(al, node)
+            tl = total if isinstance(total, LenV) else LenV(total, ()) if isinstance(total, int) else None
+            if tl is not None and sorted(tl.vars) == sorted(hi.vars):
+                k = tl.const - hi.const
+                hi = None if k == 0 else (-k if k > 0 else hi)
         if al is None or not (lo is None or isinstance(lo, int)) or not (hi is None or isinstance(hi, int)):
             return Opaque('slice')
         items = al.items
@@ -1393,6 +1550,8 @@ class AbsInt:
                         return Opaque('slice cuts through a field')
                     out.append(x)
                     used += sz
+                if out and all(hasattr(x, 'code') and str(x.code).endswith('s') and isinstance(getattr(x, 'value', None), bytes) for x in out):
+                    return b''.join(x.value for x in out)       # fixed strings: their bytes are known
                 return AList(out, al.kind)
             return Opaque('slice of a field buffer')
         if not al.has_var():
@@ -1418,6 +1577,20 @@ class AbsInt:
                 else:
                     return Opaque('slice into symbolic part')
         elif hi is not None:
+            # a positive end: fine while it stays inside the concrete prefix (counted after the trim from the left)
+            pre = 0
+            for x in out:
+                if isinstance(x, SeqVar):
+                    break
+                pre += 1
+            want = hi - (lo or 0)
+            if want <= pre:
+                return AList(out[:max(want, 0)], al.kind)
+            if want == 1 and out and isinstance(out[0], SeqVar):
+                if out[0].minlen >= 1:
+                    return AList([AV.of_sym(out[0].sym)], al.kind)
+                if len(out) == 1:
+                    return AList([AV.of_sym(out[0].sym)], al.kind) if self.decide(node, 'symbolic sequence is not empty') else AList([], al.kind)
             return Opaque('slice end inside symbolic sequence')
         return AList(out, al.kind)
 
@@ -1433,6 +1606,9 @@ class AbsInt:
         return None
 
     def for_each(self, it, node, cb):
+        if isinstance(it, ALazy):
+            it.drive(self, node, cb)
+            return
         gen = self.as_generator(it, node)
         if gen is not None:
             self.run_generator(gen, cb)
@@ -1443,6 +1619,10 @@ class AbsInt:
     def iterate(self, it, node, keep_vars=False):
         if isinstance(it, AGen):
             return self.run_generator(it)
+        if isinstance(it, ALazy):
+            out = []
+            it.drive(self, node, out.append)
+            return out
         if isinstance(it, AList):
             if it.kind == 'deque':
                 log_event('deque', 'iter', it, node)
@@ -1572,8 +1752,17 @@ class AbsInt:
                     names.update(k.attrs)
             return sorted(names)
         if isinstance(e.func, ast.Name) and e.func.id == 'globals' and 'globals' not in env and not args:
-            g = self.module_globals.setdefault(m.name, ADict())
-            return g
+            if m.name not in self.module_globals:
+                # the module namespace as a dict: classes and functions in definition order (what a loop over
+                # globals().items() at the end of the module body sees); later writes through the dict are kept
+                g = ADict()
+                for st in m.tree.body:
+                    if isinstance(st, ast.ClassDef) and st.name in m.classes:
+                        g.d[st.name] = ClassRef(m.classes[st.name])
+                    elif isinstance(st, (ast.FunctionDef, ast.AsyncFunctionDef)) and st.name in m.functions:
+                        g.d[st.name] = FuncRef(m.functions[st.name])
+                self.module_globals[m.name] = g
+            return self.module_globals[m.name]
         if isinstance(e.func, ast.Name) and e.func.id in ('hasattr', 'getattr') and e.func.id not in env and len(args) >= 2 \
                 and isinstance(args[0], AObj) and isinstance(args[1], str):
             obj, nm = args[0], args[1]
@@ -1612,6 +1801,27 @@ class AbsInt:
             return self.call_function(f.info, args, dict(kwargs), node)
         if isinstance(f, tuple) and f and f[0] == 'bound':
             return self.call_function(f[2], [f[1]] + list(args), dict(kwargs), node)
+        if isinstance(f, tuple) and len(f) == 3 and f[0] == 'attr' and isinstance(f[2], str):
+            base, name = f[1], f[2]
+            if _is_concrete(base) and all(_is_concrete(a) for a in args) and not kwargs and (
+                    isinstance(base, (frozenset, tuple, str, int, float, bytes)) or name in ('__contains__', 'get', 'count', 'index', '__getitem__')):
+                try:
+                    return getattr(base, name)(*args)
+                except (ValueError, TypeError, KeyError, IndexError) as ex:
+                    raise AbsRaise(type(ex).__name__, node, implicit=True)
+                except AttributeError:
+                    raise AbsRaise('AttributeError', node, implicit=True)
+            if name == '__contains__' and len(args) == 1:
+                r = self.compare(ast.In(), args[0], base, node)
+                return r if r is not None else self.decide(node, 'membership')
+            if isinstance(base, (AList, ADict)):
+                return self.method(base, name, list(args), dict(kwargs), node)
+        if isinstance(f, tuple) and len(f) == 3 and f[0] == 'structmethod':
+            return f[1].call(self, f[2], list(args), dict(kwargs), node)
+        if isinstance(f, tuple) and len(f) == 3 and f[0] == 'mockmethod':
+            return self.method(f[1], f[2], list(args), dict(kwargs), node)
+        if isinstance(f, tuple) and len(f) == 3 and f[0] == 'closure':
+            return self.call_function(f[1], list(args), dict(kwargs), node, closure=f[2])
         if isinstance(f, ClassRef):
             key = f.info.qname
             if key in self.summaries:
@@ -1638,6 +1848,23 @@ class AbsInt:
                 for part in args:
                     out.extend(self.iterate(part, node, keep_vars=True))
                 return AList(out, 'list')
+            if key == 'struct.Struct' and len(args) == 1 and isinstance(args[0], str):
+                return AStruct(args[0])
+            if key in ('itertools.filterfalse', 'filterfalse') and len(args) == 2:
+                return ALazy('filterfalse', args[0], args[1])
+            if key in ('itertools.repeat', 'repeat') and len(args) == 2 and isinstance(args[1], int):
+                return AList([args[0]] * args[1], 'list')
+            if key in ('functools.reduce', 'reduce') and len(args) >= 2:
+                items = self.iterate(args[1], node, keep_vars=True)
+                if len(args) > 2:
+                    acc = args[2]
+                elif items:
+                    acc, items = items[0], items[1:]
+                else:
+                    raise AbsRaise('TypeError', node, implicit=True)
+                for it in items:
+                    acc = self.apply(args[0], [acc, it], {}, node)
+                return acc
             if key in ('operator.attrgetter', 'attrgetter') and len(args) == 1 and isinstance(args[0], str):
                 return ('attrgetter', args[0])
             if key in ('operator.itemgetter', 'itemgetter') and len(args) == 1:
@@ -1654,6 +1881,66 @@ class AbsInt:
             return self.isinstance_(args, node)
         if f is len:
             return self.length_of(args[0], node)
+        if f is map and len(args) == 2:
+            return ALazy('map', args[0], args[1])
+        if f is map and len(args) > 2:
+            cols = [self.iterate(a, node, keep_vars=True) for a in args[1:]]
+            return AList([self.apply(args[0], list(t), {}, node) for t in zip(*cols)], 'list')
+        if f is filter and len(args) == 2:
+            return ALazy('filter', args[0], args[1])
+        if f is enumerate and args and not _is_concrete(args[0]):
+            return ALazy('enumerate', kwargs.get('start', args[1] if len(args) > 1 else 0), args[0])
+        if f is iter and len(args) == 1:
+            src = args[0]
+            if isinstance(src, (AGen, ALazy)):
+                return src
+            g = self.as_generator(src, node)
+            return g if g is not None else ALazy('iter', None, src)
+        if f is next and args:
+            src = args[0]
+            if isinstance(src, (AGen, ALazy)):
+                if src.done:
+                    raise Unsupported('next() on an iterator that was already advanced (resumable iterators are not modelled)')
+
+                def found(v):
+                    raise _NextFound(v)
+                try:
+                    self.for_each(src, node, found)
+                except _NextFound as nf:
+                    return nf.value
+                if len(args) > 1:
+                    return args[1]
+                raise AbsRaise('StopIteration', node, implicit=True)
+            if isinstance(src, (AList, list)) and not (isinstance(src, AList) and src.has_var()):
+                # generator expressions are evaluated eagerly into lists by this interpreter: take the first item
+                items = src.items if isinstance(src, AList) else src
+                if items:
+                    return items.pop(0)
+                if len(args) > 1:
+                    return args[1]
+                raise AbsRaise('StopIteration', node, implicit=True)
+            return Opaque('next of a non-iterator')
+        if f is setattr and len(args) == 3 and isinstance(args[0], AObj) and isinstance(args[1], str):
+            tgt = ast.copy_location(ast.Attribute(value=ast.Name(id='__setattr_obj__', ctx=ast.Load()), attr=args[1], ctx=ast.Store()), node)
+            ast.fix_missing_locations(tgt)
+            self.assign(tgt, args[2], {'__setattr_obj__': args[0]}, args[0].cls.module if args[0].cls is not None else None)
+            return None
+        if f is getattr and len(args) >= 2 and hasattr(args[0], 'absint_getattr') and isinstance(args[1], str):
+            try:
+                return args[0].absint_getattr(self, args[1], node)
+            except AbsRaise as ex:
+                if ex.exc == 'AttributeError' and len(args) > 2:
+                    return args[2]
+                raise
+        if f is getattr and len(args) >= 2 and isinstance(args[0], AObj) and isinstance(args[1], str):
+            src = ast.copy_location(ast.Attribute(value=ast.Name(id='__getattr_obj__', ctx=ast.Load()), attr=args[1], ctx=ast.Load()), node)
+            ast.fix_missing_locations(src)
+            try:
+                return self._v_Attribute(src, {'__getattr_obj__': args[0]}, args[0].cls.module if args[0].cls is not None else None)
+            except AbsRaise as ex:
+                if ex.exc == 'AttributeError' and len(args) > 2:
+                    return args[2]
+                raise
         if f in (list, tuple, bytearray, bytes):
             if not args:
                 return AList([], f.__name__)
@@ -1663,7 +1950,7 @@ class AbsInt:
                 return AList(items, f.__name__)
             if isinstance(src, ADict):
                 return list(src.d.keys())
-            if isinstance(src, AGen) or (isinstance(src, AObj) and src.cls is not None and self.p.lookup_method(src.cls, '__iter__')[1] is not None):
+            if isinstance(src, (AGen, ALazy)) or (isinstance(src, AObj) and src.cls is not None and self.p.lookup_method(src.cls, '__iter__')[1] is not None):
                 return AList(self.iterate(src, node, keep_vars=True), f.__name__)
             if isinstance(src, (list, tuple)) and not _is_concrete(src):
                 return AList(list(src), f.__name__)
@@ -1734,6 +2021,8 @@ class AbsInt:
             obj = args[0]
             if isinstance(obj, AObj) and f[1] in obj.attrs:
                 return obj.attrs[f[1]]
+            if isinstance(obj, AObj) or hasattr(obj, 'absint_getattr'):
+                return self.apply(getattr, [obj, f[1]], {}, node)
             return Opaque('attrgetter')
         if isinstance(f, tuple) and len(f) == 2 and f[0] == 'itemgetter' and len(args) == 1:
             return self.index(args[0], f[1], node)
@@ -1741,6 +2030,9 @@ class AbsInt:
             if f is float or (f is abs and isinstance(args[0], Poly) and args[0].sign() in (0, 1)):
                 return args[0]
             return Wrapped(f.__name__, args[0])
+        if f in (sum, sorted, any, all, min, max) and args and (isinstance(args[0], (AGen, ALazy)) or (
+                isinstance(args[0], AObj) and args[0].cls is not None and self.p.lookup_method(args[0].cls, '__iter__')[1] is not None)):
+            args = [AList(self.iterate(args[0], node, keep_vars=True), 'list')] + list(args[1:])
         if f is sum and args and isinstance(args[0], (AList, list)) and not _is_concrete(args[0]):
             tot = args[1] if len(args) > 1 else 0
             for it in self.iterate(args[0], node):
@@ -1798,6 +2090,8 @@ class AbsInt:
                 if k is None:
                     return AList([AV.TOP('divmod by a non power of two')] * 2, 'tuple')
                 return AList([x.shr(k), x.mod_pow2(k)], 'tuple')
+        if any(isinstance(a, AV) and a.is_const for a in args):
+            args = [a.const if isinstance(a, AV) and a.is_const else a for a in args]
         if f in _BUILTINS.values() and all(_is_concrete(a) for a in args) and all(_is_concrete(v) for v in kwargs.values()):
             try:
                 r = f(*args, **kwargs)
@@ -1890,6 +2184,8 @@ class AbsInt:
         return Opaque('len')
 
     def method(self, base, name, args, kwargs, node):
+        if isinstance(base, AStruct):
+            return base.call(self, name, list(args), dict(kwargs), node)
         if isinstance(base, AList) and base.kind == 'deque':
             log_event('deque', name, base, node)
         for hook in self.method_hooks:
@@ -1905,7 +2201,16 @@ class AbsInt:
                     elif isinstance(a, dict):
                         new.update(a)
                     else:
-                        raise Unsupported(f'dict.update with {a!r} at line {node.lineno}')
+                        # an iterable of (key, value) pairs
+                        try:
+                            pairs = self.iterate(a, node, keep_vars=True)
+                        except Unsupported:
+                            raise Unsupported(f'dict.update with {a!r} at line {node.lineno}')
+                        for pr in pairs:
+                            kv = self.iterate(pr, node, keep_vars=True)
+                            if len(kv) != 2 or not _hashable_const(kv[0]):
+                                raise Unsupported(f'dict.update with {a!r} at line {node.lineno}')
+                            new[kv[0]] = kv[1]
                 new.update(kwargs)
                 base.d.update(new)
                 if getattr(base, 'owner', None) is not None:
@@ -1919,6 +2224,13 @@ class AbsInt:
                 return Opaque('dict.get')
             if name == 'copy':
                 return ADict(base.d)
+            if name == 'setdefault' and args and _hashable_const(args[0]):
+                if args[0] not in base.d:
+                    base.d[args[0]] = args[1] if len(args) > 1 else None
+                    if getattr(base, 'owner', None) is not None:
+                        base.owner.stores.append((args[0], base.d[args[0]], node))
+                        log_event('store', base.owner, args[0], base.d[args[0]])
+                return base.d[args[0]]
             if name == 'items':
                 return [AList([k, v], 'tuple') for k, v in base.d.items()]
             if name == 'keys':
@@ -2172,3 +2484,49 @@ def _cmp_len(op, lv: LenV, n):
     lo = lv.const + lv.minvar
     hi = 10 ** 9
     return _cmp_interval(op, lo - n, hi - n)
+
+
+def concretize(v):
+    """Abstract value -> plain Python value where it is fully known (for folded tables); other values stay abstract."""
+    if isinstance(v, AV) and v.is_const:
+        return v.const
+    if isinstance(v, ADict):
+        try:
+            return {concretize(k): concretize(x) for k, x in v.d.items()}
+        except TypeError:
+            return v
+    if isinstance(v, AList) and not v.has_var() and v.kind in ('list', 'tuple', 'set', 'frozenset'):
+        items = [concretize(x) for x in v.items]
+        try:
+            return {'list': list, 'tuple': tuple, 'set': set, 'frozenset': frozenset}[v.kind](items)
+        except TypeError:
+            return v
+    if isinstance(v, list):
+        return [concretize(x) for x in v]
+    if isinstance(v, tuple) and not (v and v[0] in ('closure', 'bound', 'lambda', 'attrgetter', 'itemgetter', 'attr', 'mockmethod', 'signed')):
+        return tuple(concretize(x) for x in v)
+    if isinstance(v, dict):
+        return {k: concretize(x) for k, x in v.items()}
+    return v
+
+
+def install_fold_fallback(folder):
+    """Module-level values the restricted folder cannot compute (comprehensions with helpers, closures made by a factory,
+    generator helpers, dict merges...) are computed by the abstract interpreter instead, when they come out on one path."""
+    ai = AbsInt(folder)
+
+    def fallback(expr, module):
+        saved = list(EVENT_LOG)
+        try:
+            outs = ai.explore(lambda: ai.ev(expr, {}, module))
+        except (AnalysisError, RecursionError) as e:
+            raise Unfoldable(f'not foldable: {e}')
+        finally:
+            EVENT_LOG[:] = saved
+        if len(outs) != 1 or outs[0].kind != 'return':
+            raise Unfoldable(f'module level value comes out as {outs!r}')
+        v = concretize(outs[0].value)
+        if isinstance(v, Opaque):
+            raise Unfoldable(f'module level value is {v!r}')
+        return v
+    folder.fallback = fallback
